@@ -4,25 +4,25 @@ CHECKS = {
  "C20": {
   "level": "exploration",
   "technique": "property-based testing (Hypothesis) against a closed-form Rodrigues reference + explicit enumeration of all 26 axis sign/zero patterns",
-  "text": "Generated (angle, axis, vector) triples are compared component-wise with an independent closed-form Rodrigues rotation; the measure-zero families where axis components are exactly zero (the code's case split) are enumerated with all sign patterns, magnitudes and axis scales, so the only way to miss a defect is a case split at a non-zero value the generator does not hit.",
+  "text": "Generated (angle, axis, vector) triples are compared component-wise with an independent closed-form Rodrigues rotation; the measure-zero families where axis components are exactly zero (the code's case split) are enumerated with all sign patterns, magnitudes and axis scales, so the only way to miss a defect is a case split at a non-zero value the generator does not hit. Axes tilted by 1e-9 .. 1e-2 rad away from every coordinate direction are enumerated as well.",
   "note": "Trusts vlib/refs.py:rodrigues (12 lines) and a relative tolerance of 1e-6 (implementation is accurate to ~1e-8 for ill-conditioned axes). No absence proof: floats are sampled.",
  },
  "C19": {
   "level": "exploration",
   "technique": "exhaustive enumeration of valid field values (width 1-4 always, width 5 in the thorough tier) against a reference encoder + exhaustive/Hypothesis-generated malformed strings against an independent classifier",
-  "text": "Round trip decode(ref_encode(n)) == n for every representable integer of width 1-4 (2.5M values, exhaustive) and width 5 (87.5M values: exhaustive in the thorough tier, 2.2M values around every segment boundary in the quick tier), bare and blank-padded; malformed strings exhaustively to width 3 over a reduced alphabet and sampled to width 5 must raise ValueError; well-formed strings are compared with a reference decoder.",
+  "text": "Round trip decode(ref_encode(n)) == n for every representable integer of width 1-4 (2.5M values, exhaustive) and width 5 (87.5M values: exhaustive in the thorough tier, 2.2M values around every segment boundary in the quick tier), bare and blank-padded; malformed strings exhaustively to width 3 over a reduced alphabet and sampled to width 5 must raise ValueError; well-formed strings are compared with a reference decoder. An atheris target fuzzes decode() at byte level with the same oracle inside (320 k executions quick, 24 M thorough); the serial-column stage rewrites serials of single- and multi-conformation inputs with arbitrary valid encodings, duplicates and descending order.",
   "note": "Trusts vlib/refs.py hy36_encode/hy36_classify/hy36_decode_ref (written from the format description). Sign + letter form and non-blank whitespace padding are not classified. Width-5 coverage is exhaustive only in the thorough tier.",
  },
  "C07": {
   "level": "exploration",
   "technique": "metamorphic property-based testing (Hypothesis): generated structures x generated edits of unused content; records must be identical",
-  "text": "For generated structures (segments and balls of the reference proteins with threaded mutations, relabelled chains, library ligands and ions) the full observation record and the .pka text must be bit-identical after inserting ignorable residues (HETATM and ATOM tagged, at chain starts, after TER, anywhere), hydrogens under all PDB naming styles, non-atom records, and after rewriting serial/occupancy/B/element/charge columns or truncating lines; --protonate-all and the keep-protons round trip must reproduce every group within 1e-9.",
+  "text": "For generated structures (segments and balls of the reference proteins with threaded mutations, relabelled chains, library ligands and ions) the full observation record and the .pka text must be bit-identical after inserting ignorable residues (HETATM and ATOM tagged, at chain starts, after TER, anywhere), hydrogens under all PDB naming styles, non-atom records, and after rewriting serial/occupancy/B/element/charge columns or truncating lines; --protonate-all and the keep-protons round trip must reproduce every group within 1e-9. The keep-protons clause is also run with all hydrogens of a --protonate-all run fed back.",
   "note": "Trusts the harness PDB writer/reader (vlib/pdbio.py) and the coordinate-based group keying (vlib/observe.py). Sampled, not exhaustive; edits are limited to the classes listed in the evidence rule.",
  },
  "C06": {
   "level": "exploration",
   "technique": "metamorphic property-based testing (Hypothesis): generated structures x generated order-preserving relabellings; records keyed by file position must be unchanged",
-  "text": "Generated structures (incl. insertion codes, blank/digit/lower-case chain ids, hetero groups, TER-less chain breaks) are relabelled by injective chain renaming, per-chain shifts (to negative numbers, to a start at exactly 0, by multiples of 1000), strictly increasing renumbering and resolving/introducing insertion codes; every group record keyed by file position must agree within 1e-9 (counts exact) and labels must follow the relabelling.",
+  "text": "Generated structures (incl. insertion codes, blank/digit/lower-case chain ids, hetero groups, TER-less chain breaks) are relabelled by injective chain renaming, per-chain shifts (to negative numbers, to a start at exactly 0, by multiples of 1000), strictly increasing renumbering and resolving/introducing insertion codes; every group record keyed by file position must agree within 1e-9 (counts exact) and labels must follow the relabelling. A dedicated stage relabels two chains joined by a disulfide bridge so that both cysteines carry the same residue number.",
   "note": "Open known finding F5 (insertion-code twins treated as one residue) is excluded by signature: only relabellings that create/resolve twins and only when every differing group is within 30 A of a twin residue. Fixed finding F10 (terminus bookkeeping by residue number only) is a regression case.",
  },
  "C13": {
@@ -34,13 +34,13 @@ CHECKS = {
  "C14": {
   "level": "exploration",
   "technique": "differential/metamorphic property-based testing (Hypothesis): -i list vs. option-free run of the same generated structure",
-  "text": "For generated structures and generated residue lists (subsets, singletons, all residues, duplicates, phantom entries, insertion-coded residues) the reported groups must be exactly the option-free reported groups lying in listed residues with unchanged titratable flags; desolvation terms, buried counts, backbone determinants and non-iterative side-chain determinants of listed groups must equal the option-free run; Coulomb determinants may only name listed partners or ions; listing everything must equal no option (1e-9); phantom entries must change nothing (bit-exact).",
+  "text": "For generated structures and generated residue lists (subsets, singletons, all residues, duplicates, phantom entries, insertion-coded residues) the reported groups must be exactly the option-free reported groups lying in listed residues with unchanged titratable flags; desolvation terms, buried counts, backbone determinants and non-iterative side-chain determinants of listed groups must equal the option-free run; Coulomb determinants may only name listed partners or ions; listing everything must equal no option (1e-9); phantom entries must change nothing (bit-exact). The same clauses run on multi-conformation inputs (atoms copied between conformations must still match the list); an unlisted partner of an iterative like-charge pair must keep its hydrogen-bond determinant.",
   "note": "The environment clause is not asserted for determinants towards partners penalised by covalent coupling or for covalently coupled groups (those legitimately differ between the two runs: coupling is only established among titratable groups). Blank chain ids are outside the domain. Open finding F5 (insertion-code twins) excluded by signature.",
  },
  "C04": {
   "level": "exploration",
   "technique": "metamorphic property-based testing (Hypothesis): generated structures x exact grid motions (24 rotations x integer milli-Angstrom translations); records mapped back through the exact inverse motion",
-  "text": "Three layers: (1) for every generated structure, heavy-atom bond sets, protein/ion groups, centres, desolvation terms and buried counts are equal in both frames; (2) for amino-acid structures with hydrogens supplied (keep-protons) the entire record is equal within 1e-9; (3) when the program builds the hydrogens, hydrogen sets correspond one-to-one within a grid step and the moved-frame record equals the frame-0 keep-protons record obtained by feeding the moved frame's hydrogens back (the 'explained difference' oracle: the only allowed difference is the rounding of constructed hydrogens).",
+  "text": "Three layers: (1) for every generated structure, heavy-atom bond sets, protein/ion groups, centres, desolvation terms and buried counts are equal in both frames; (2) for amino-acid structures with hydrogens supplied (keep-protons) the entire record is equal within 1e-9; (3) when the program builds the hydrogens, hydrogen sets correspond one-to-one within a grid step and the moved-frame record equals the frame-0 keep-protons record obtained by feeding the moved frame's hydrogens back (the 'explained difference' oracle: the only allowed difference is the rounding of constructed hydrogens). A further stage moves whole reference proteins with threaded clusters (only there the backbone-reorganisation and Coulomb terms are switched on), and the six corpus files are run in all 24 orientations.",
   "note": "Exact threshold ties (bond cut-offs in integer arithmetic; 15/20 A cut-offs within 1e-6 A) are excluded and counted. Open findings F8 (ambiguous C-terminal carbon) and F11 (frame-dependent rotamer for hydrogens on atoms with a single heavy neighbour) are excluded by signatures computed from the input with the all-pairs reference bond rule. Severely clashing threaded side chains (spurious bonds) are not generated for this property.",
  },
  "C05": {
@@ -64,13 +64,13 @@ CHECKS = {
  "C08": {
   "level": "exploration",
   "technique": "property-based testing (Hypothesis) over generated multi-conformation inputs against (i) an atom-set model of topping-up and (ii) an independent recomputation of the mean from the per-conformation records",
-  "text": "Generated MODEL / alternate-location inputs (2-4 conformations, letters and digits as tags, partial and whole-residue alternates, point mutants in any conformation, missing atoms/residues, identical models, single conformation): every conformation must keep its atoms, gain the atoms it lacks from conformations with the same residue type at that position and never hold two residue types at one position; the average must hold exactly one group per site occurring anywhere, with pKa, desolvation, buried, counts and per-partner determinant sums equal to the arithmetic mean over the conformations that contain the group; single conformation == average; identical models == single model.",
+  "text": "Generated MODEL / alternate-location inputs (2-4 conformations, letters and digits as tags, partial and whole-residue alternates, point mutants in any conformation, missing atoms/residues, identical models, single conformation): every conformation must keep its atoms, gain the atoms it lacks from conformations with the same residue type at that position and never hold two residue types at one position; the average must hold exactly one group per site occurring anywhere, with pKa, desolvation, buried, counts and per-partner determinant sums equal to the arithmetic mean over the conformations that contain the group; single conformation == average; identical models == single model. Conformation names must follow MODEL number and alternate-location tag (blank -> A, digit n -> n-th letter); arbitrary single-conformation structures (duplicate ligand copies, ions) must report exactly their only conformation.",
   "note": "Per-conformation records are taken as ground truth (checked by C01/C02). Groups bridged in only some conformations are not compared. Fixed findings F6 (divisor / missing groups) and F13 (shadowed donor atoms) are regression cases.",
  },
  "C12": {
   "level": "fault_enumeration",
   "technique": "exhaustive enumeration of atom-deletion faults per residue type (54,512 truncated peptides) + Hypothesis-generated multi-residue deletions, judged by 'no exception' and the independent census of C01; exhaustive list of rejection cases",
-  "text": "Every subset of the atoms of each of the 20 residue types inside GLY-X-GLY, and of the 7 ionizable types as N-terminal and C-terminal residue, is deleted (exhaustive); generated structures with ligands, ions and several chains lose single atoms, side chains, backbone atoms, termini, whole residues or ligand atoms at 2-60 %; each truncated input must run to completion and report exactly the sites whose defining atom remains. Empty / atom-free inputs and unknown file types must raise ValueError and nothing else.",
+  "text": "Every subset of the atoms of each of the 20 residue types inside GLY-X-GLY, and of the 7 ionizable types as N-terminal and C-terminal residue, is deleted (exhaustive); generated structures with ligands, ions and several chains lose single atoms, side chains, backbone atoms, termini, whole residues or ligand atoms at 2-60 %; each truncated input must run to completion and report exactly the sites whose defining atom remains. Empty / atom-free inputs and unknown file types must raise ValueError and nothing else. An atheris (libFuzzer) target with the same oracle inside decodes bytes into template + deletion mask + jitter with coverage feedback over propka.* (1.9 k executions quick, 96 k thorough).",
   "note": "Exhaustive only for single-residue truncations on one backbone geometry; multi-residue truncations are sampled. Trusts vlib/census.py.",
  },
  "C11": {
@@ -82,7 +82,7 @@ CHECKS = {
  "C09": {
   "level": "exploration",
   "technique": "property-based testing (Hypothesis) against an independent Henderson-Hasselbalch reference: unit level (single groups), structure level (profiles, printed table, pI root bracketing) and call histories on one container",
-  "text": "Single-group charges are compared with an independent HH evaluation (range, half charge at pH = pKa, never increasing) over pKa in [-20,40] and pH in [-200,200] incl. neighbouring floats; for generated structures (acids only, bases only, mixed, ligand-only, nothing titratable) and generated grids every API profile row and every printed row must equal the sums of HH charges with model / predicted pKa (unfolded, folded order), and every pI (default and user windows/precisions, and the printed line) must bracket a root of the right reference curve; histories query profiles and pI before and after the pKa calculation on the same container.",
+  "text": "Single-group charges are compared with an independent HH evaluation (range, half charge at pH = pKa, never increasing) over pKa in [-20,40] and pH in [-200,200] incl. neighbouring floats; for generated structures (acids only, bases only, mixed, ligand-only, nothing titratable) and generated grids every API profile row and every printed row must equal the sums of HH charges with model / predicted pKa (unfolded, folded order), and every pI (default and user windows/precisions, and the printed line) must bracket a root of the right reference curve; histories query profiles and pI before and after the pKa calculation on the same container. For multi-conformation inputs the file written for every single conformation (propka.output.write_pka) must carry the table and pI of that conformation.",
   "note": "Trusts vlib/refs.py:hh_charge (5 lines). Single-group comparisons use 1e-12, totals 1e-9, printed values must be correct roundings. |pKa - pH| < 308 (float range).",
  },
  "C10": {
@@ -106,7 +106,7 @@ CHECKS = {
  "C16": {
   "level": "exploration",
   "technique": "property-based testing (Hypothesis): sign and bound predicates from the statement on every titratable group of generated structures covering the interaction classes absent from the references; unit-level predicates on the energy functions",
-  "text": "Whole reference proteins with threaded acid-acid, base-base, his-his, cys-cys, cys-his, acid-base, tyr-any clusters at buried positions, library ions (all 21 names) and ligands of every titratable type next to the cluster, corpus-derived structures with every library ligand, and parameter files with desolvationAllowance 0 / 0.1 / 0.4: desolvation and backbone signs, Coulomb signs for like and opposite charges and for ions, bounds (2 x side-chain maximum except the configured CYS-CYS value; Coulomb value at the inner cut-off with dielectric 30, times the formal charge for ions), buried fraction in [0,1], equal-and-opposite Coulomb determinants of acid-base pairs of reported protein side chains; ranges, cut-offs and monotonicity of coulomb_energy, hydrogen_bond_energy and the weight functions.",
+  "text": "Whole reference proteins with threaded acid-acid, base-base, his-his, cys-cys, cys-his, acid-base, tyr-any clusters at buried positions, library ions (all 21 names) and ligands of every titratable type next to the cluster, corpus-derived structures with every library ligand, and parameter files with desolvationAllowance 0 / 0.1 / 0.4: desolvation and backbone signs, Coulomb signs for like and opposite charges and for ions, bounds (2 x side-chain maximum except the configured CYS-CYS value; Coulomb value at the inner cut-off with dielectric 30, times the formal charge for ions), buried fraction in [0,1], equal-and-opposite Coulomb determinants of acid-base pairs of reported protein side chains; ranges, cut-offs and monotonicity of coulomb_energy, hydrogen_bond_energy and the weight functions. Parameter files that toggle remove_penalised_group / common_charge_centre are included; under shared_determinants only the magnitude bounds are asserted.",
   "note": "Bounds are read from the Parameters object of the run, the constants 244.12 and 30 from the statement. Default options only.",
  },
  "C17": {
@@ -118,7 +118,7 @@ CHECKS = {
  "C03": {
   "level": "exploration",
   "technique": "stateful model-based testing (Hypothesis RuleBasedStateMachine) over call histories in one process, each run compared bit-exactly with the same (content, options) executed alone in a fresh interpreter; histories run in 16 interpreters with different hash seeds",
-  "text": "A per-run catalogue of inputs (generated peptides, inputs with elements missing from the valence table, ligands with covalently coupled groups, multi-conformation files, a buried cluster of coupled acids, the corpus file 1HPX) and 9 option sets (default, -d, -i, -c, -k, --protonate-all, -g/-w, -p with different scoring flags and coupling thresholds, -q); rules: run from a stream, run from a path in drawn directories, CLI main() with several files in one invocation, allocation churn, garbage-collector toggling. After every run the canonical record (every float bit for bit, .pka text minus the date) must equal the fresh-interpreter reference; the references themselves are computed under three hash seeds and as path and stream (297 fresh interpreters in the quick tier) and must agree.",
+  "text": "A per-run catalogue of inputs (generated peptides, inputs with elements missing from the valence table, ligands with covalently coupled groups, multi-conformation files, a buried cluster of coupled acids, the corpus file 1HPX) and 9 option sets (default, -d, -i, -c, -k, --protonate-all, -g/-w, -p with different scoring flags and coupling thresholds, -q); rules: run from a stream, run from a path in drawn directories, CLI main() with several files in one invocation, allocation churn, garbage-collector toggling. After every run the canonical record (every float bit for bit, .pka text minus the date) must equal the fresh-interpreter reference; the references themselves are computed under three hash seeds and as path and stream (297 fresh interpreters in the quick tier) and must agree. The catalogue also holds a CR LF copy and a sloppy CR LF file with unpadded TER lines (purity must hold for any content); a parameter file with other settings lies under the default name in one of the drawn working directories and must never be picked up.",
   "note": "Object addresses and set orders are perturbed, not enumerated: a miss is possible, a false alarm is not. The order of covalently coupled partner lists is compared as a set (not a reported number).",
  },
 }
